@@ -96,24 +96,74 @@ theorem C01_locality (env : Env) (op : DecOp) (l : Nat) (hl : fixedWidth op = so
 theorem C01_decode_int_bits (data o l : Nat) : Straight.decode_int data o l = data / 2 ^ o % 2 ^ l := by
   exact Dec01.decode_int_bits data o l
 
+/-- **The effective signedness.** A field with an Offset is stored excess-K: `decode_number` and
+`encode_number` read its raw count as UNSIGNED whatever the database's Signed flag says (the 22 power
+fields: 32 bits, offset -2000000000, flagged Signed). Without an Offset it is the database flag. -/
+theorem C01_effSigned (signed : Bool) (ofs : Lit) :
+    effSigned signed ofs = (if ofs.val = 0 then signed else false) := rfl
+
+/-- for an integer Offset: the database flag when the offset is 0, unsigned otherwise -/
+theorem C01_effSigned_int (signed : Bool) (o : Int) :
+    effSigned signed (Lit.ofInt o) = (if o = 0 then signed else false) := by
+  exact Dec01.effSigned_ofInt signed o
+
 /-- **"Not available" is reported as no value**, and only it: `decode_number` yields `None` exactly
 when the (sign-extended) integer is the field's not-available code — all ones for unsigned fields
-of 2+ bits, the largest positive value for signed fields of 4+ bits; 1-bit fields have none. -/
+of 2+ bits, the largest positive value for signed fields of 4+ bits; 1-bit fields have none.
+"Signed" is the effective signedness (`C01_effSigned`). -/
 theorem C01_na (data off len : Nat) (signed : Bool) (res mn mx ofs : Lit) :
     decodeNumber data off len signed res mn mx ofs = .ok none ↔
-      naCode len signed =
-        some (if signed then signExtend (Straight.decode_int data off len) len
+      naCode len (effSigned signed ofs) =
+        some (if effSigned signed ofs then signExtend (Straight.decode_int data off len) len
               else ((Straight.decode_int data off len : Nat) : Int)) := by
   exact Dec01.decodeNumber_na data off len signed res mn mx ofs
 
 /-- an integer-resolution NUMBER inside its database range decodes (no error) to exactly
-raw × resolution + offset -/
+raw × resolution + offset, where raw is the field's integer under the effective signedness -/
 theorem C01_number_total_int (data off len : Nat) (signed : Bool) (r mn mx o : Int)
-    (z : Int) (hz : z = (if signed then signExtend (Straight.decode_int data off len) len
+    (z : Int) (hz : z = (if effSigned signed (Lit.ofInt o) then signExtend (Straight.decode_int data off len) len
                           else ((Straight.decode_int data off len : Nat) : Int)))
-    (hna : naCode len signed ≠ some z) (h1 : mn ≤ z * r + o) (h2 : z * r + o ≤ mx) :
+    (hna : naCode len (effSigned signed (Lit.ofInt o)) ≠ some z) (h1 : mn ≤ z * r + o) (h2 : z * r + o ≤ mx) :
     decodeNumber data off len signed (Lit.ofInt r) (Lit.ofInt mn) (Lit.ofInt mx) (Lit.ofInt o) = .ok (some (.int (z * r + o))) := by
   exact Dec01.decodeNumber_total_int data off len signed r mn mx o z hz hna h1 h2
+
+/-- **The power fields** (32 bits, resolution 1, offset -2000000000, database flag Signed, range
+-2000000000 .. 2294967292): every raw count 0 .. 0xFFFFFFFC decodes to raw - 2000000000 — the whole
+database range, including the upper half that sign extension would have turned negative. -/
+theorem C01_power_field_total (data off : Nat) (h : Straight.decode_int data off 32 ≤ 0xFFFFFFFC) :
+    decodeNumber data off 32 true (Lit.ofInt 1) (Lit.ofInt (-2000000000)) (Lit.ofInt 2294967292) (Lit.ofInt (-2000000000)) =
+      .ok (some (.int ((Straight.decode_int data off 32 : Nat) - 2000000000))) := by
+  have he : effSigned true (Lit.ofInt (-2000000000)) = false := by rw [C01_effSigned_int]; rfl
+  have := C01_number_total_int data off 32 true 1 (-2000000000) 2294967292 (-2000000000)
+    ((Straight.decode_int data off 32 : Nat) : Int) (by rw [he]; rfl)
+    (by rw [he]; simp only [naCode]; intro hh; have := Option.some.inj hh; omega) (by omega) (by omega)
+  rw [this]
+  congr 3
+  omega
+
+/-- equality of decoder results is decidable (for the kernel-evaluated examples below) -/
+local instance : DecidableEq (Except DecErr (Option Num)) := fun a b =>
+  match a, b with
+  | .ok x, .ok y => if h : x = y then isTrue (by rw [h]) else isFalse (fun e => h (Except.ok.inj e))
+  | .error x, .error y => if h : x = y then isTrue (by rw [h]) else isFalse (fun e => h (Except.error.inj e))
+  | .ok _, .error _ => isFalse (fun e => by cases e)
+  | .error _, .ok _ => isFalse (fun e => by cases e)
+
+-- raw 0x80000000 is 147483648 W (not -4147483648), raw 0 is the minimum, raw 0xFFFFFFFC the maximum,
+-- raw 0xFFFFFFFF is "not available", and the reserved codes 0xFFFFFFFD/E are above the database maximum
+example : decodeNumber 0x80000000 0 32 true (Lit.ofInt 1) (Lit.ofInt (-2000000000)) (Lit.ofInt 2294967292) (Lit.ofInt (-2000000000))
+    = .ok (some (.int 147483648)) := by decide +kernel
+example : decodeNumber 0 0 32 true (Lit.ofInt 1) (Lit.ofInt (-2000000000)) (Lit.ofInt 2294967292) (Lit.ofInt (-2000000000))
+    = .ok (some (.int (-2000000000))) := by decide +kernel
+example : decodeNumber 0xFFFFFFFC 0 32 true (Lit.ofInt 1) (Lit.ofInt (-2000000000)) (Lit.ofInt 2294967292) (Lit.ofInt (-2000000000))
+    = .ok (some (.int 2294967292)) := by decide +kernel
+example : decodeNumber 0xFFFFFFFF 0 32 true (Lit.ofInt 1) (Lit.ofInt (-2000000000)) (Lit.ofInt 2294967292) (Lit.ofInt (-2000000000))
+    = .ok none := by decide +kernel
+example : decodeNumber 0xFFFFFFFD 0 32 true (Lit.ofInt 1) (Lit.ofInt (-2000000000)) (Lit.ofInt 2294967292) (Lit.ofInt (-2000000000))
+    = .error .above := by decide +kernel
+-- without an Offset the database flag decides: 0x7FFFFFFF is the signed "not available" code
+example : decodeNumber 0x7FFFFFFF 0 32 true (Lit.ofInt 1) (Lit.ofInt (-2147483648)) (Lit.ofInt 2147483645) (Lit.ofInt 0)
+    = .ok none := by decide +kernel
 
 -- non-vacuity: PGN 127508 (battery status) is in the database, and its compiled decoder decodes
 example : ∃ p ∈ Gen.dbPgns, p.pgn = 127508 ∧ ordersOk p = true ∧
